@@ -26,11 +26,11 @@ META = {
 PRODUCER_ACTIONS = ["EmitTok", "XNull", "XBool", "XInt", "XReal", "XName", "XLit", "XHex", "XRef", "XArr", "XDict"]
 
 
-def gen_files(w, tag, ndocs, nfiles, seed, max_objects=6, max_revs=1):
+def gen_files(w, tag, ndocs, nfiles, seed, max_objects=6, max_revs=1, cfg="Gen_File.cfg"):
     """seeded abstract documents (histories when max_revs > 1) -> TLC Producer in simulation mode -> files"""
     docs = os.path.join(w, "docs-%s.ndjson" % tag)
     run_bin("c02", ["docs", "--seed", seed, "--n", ndocs, "--max-objects", max_objects, "--max-revs", max_revs, "--out", docs])
-    r = tlc("Gen_File.tla", "Gen_File.cfg", workers=1, simulate=nfiles, depth=8000, env=dict(DOCS=docs), timeout=3000,
+    r = tlc("Gen_File.tla", cfg, workers=1, simulate=nfiles, depth=8000, env=dict(DOCS=docs), timeout=3000,
             name="genfile-" + tag, xmx="3g", seed_override=seed & 0x7FFFFFFF)
     return r, r.tagged("REPLAY")
 
@@ -69,6 +69,9 @@ def run(tier):
     chk.extra["xref_styles"] = dict(kinds)
     chk.extra["w_layouts"] = dict(collections.Counter(str(f["w"]) for f in files if f["xref"].startswith("stream")))
     chk.extra["files_with_object_streams"] = sum(1 for f in files if f["ncomp"] > 0)
+    chk.extra["structural_stream_filters"] = dict(collections.Counter("%s/ft%s" % (f["sfilter"], f["pngft"]) for f in files if f["xref"].startswith("stream")))
+    if not any(f["sfilter"] == "pred" and f["pngft"] >= 5 for f in files):
+        raise vlib.ToolError("vacuous: no generated file with per-row PNG filter types on a structural stream")
     if chk.extra["files_with_object_streams"] == 0:
         raise vlib.ToolError("vacuous: no generated file uses object streams")
     fin, tr = os.path.join(w, "files.ndjson"), os.path.join(w, "trace.ndjson")
